@@ -43,6 +43,9 @@ def run_check(pid, tier, replay=None):
     instantiate.instantiate_all()
     import gen_main
     gen_main.generate()
+    if not os.path.exists(os.path.join(C.GEN, ".translated")):
+        # fresh checkout without ./check --setup: other properties' generated tables are imported by the shared driver
+        translate_all(skip=pid)
 
     # 1. translator: regenerate tables from the current /repo
     gen_info = None
@@ -149,14 +152,11 @@ def run_check(pid, tier, replay=None):
     return rc
 
 
-def setup():
-    """Generate every table from /repo and build the whole Lean project."""
-    C.setup_tf()
-    import instantiate
-    instantiate.instantiate_all()
-    import gen_main
-    gen_main.generate()
+def translate_all(skip=None):
+    """Run every property's translator (tables extracted from /repo that Lean files import)."""
     for pid in ALL:
+        if pid == skip:
+            continue
         try:
             mod = load_prop(pid)
         except ModuleNotFoundError:
@@ -166,6 +166,18 @@ def setup():
                 mod.translate(Ctx(pid, "quick"), C.Result())
             except Exception:
                 C.log(traceback.format_exc())
+    with open(os.path.join(C.GEN, ".translated"), "w") as f:
+        f.write("ok\n")
+
+
+def setup():
+    """Generate every table from /repo and build the whole Lean project."""
+    C.setup_tf()
+    import instantiate
+    instantiate.instantiate_all()
+    import gen_main
+    gen_main.generate()
+    translate_all()
     targets = []
     for pid in ALL:
         try:
